@@ -143,7 +143,10 @@ func runWindows(r *ev.Run) int64 {
 		head := entries[len(entries)-1]
 		ev.Par(len(floors), len(floors), func(fi int) {
 			f := floors[fi]
-			if r.OutOfTime() {
+			// Quick tier: the floor cases are a small bounded amount of work after the (unconditional) chain build, so they
+			// always run - on an overloaded machine the build alone used to outlast the budget and the whole part was
+			// silently skipped. Thorough: subject to the budget.
+			if r.Thorough() && r.OutOfTime() {
 				r.Incomplete(fmt.Sprintf("windows: floor %d%s not run", f, be))
 				return
 			}
